@@ -79,9 +79,9 @@ def syndromeTree : Tree := syndromes.foldl Tree.insert .leaf
 /-- `1 ⊕ 0x2bc830a3` -/
 def switchConst : Nat := Gen.b32VerifyConst ^^^ Gen.b32mVerifyConst
 
+set_option maxRecDepth 200000 in
 /-- the kernel computation: the tree is a search tree over `[0, 2^30)`, it contains every
     syndrome, and no syndrome xor the switch constant is in it -/
-set_option maxRecDepth 200000 in
 theorem syndrome_table :
     syndromeTree.bounded 0 (2 ^ 30) = true ∧ syndromes.all (fun s => syndromeTree.mem s) = true ∧
       syndromes.all (fun s => !syndromeTree.mem (s ^^^ switchConst)) = true := by
